@@ -225,6 +225,13 @@ class ProcessServlet(Servlet):
             p.start()
             name = q_out.get()
             if name is None:
+                # This worker failed in `__init__`. Shut down the workers that
+                # have already been started, so that nothing is left running.
+                if self._workers:
+                    q_in.put(None)
+                    for ww in self._workers:
+                        ww.join()
+                    self._workers = []
                 p.join()  # this will raise exception b/c worker __init__ failed
             self._workers.append(p)
             logger.debug('   ... worker <%s> is ready', name)
@@ -343,6 +350,13 @@ class ThreadServlet(Servlet):
             w.start()
             name = q_out.get()
             if name is None:
+                # This worker failed in `__init__`. Shut down the workers that
+                # have already been started, so that nothing is left running.
+                if self._workers:
+                    q_in.put(None)
+                    for ww in self._workers:
+                        ww.join()
+                    self._workers = []
                 w.join()  # this will raise exception b/c worker __init__ failed
             self._workers.append(w)
             logger.debug('   ... worker <%s> is ready', name)
@@ -420,20 +434,29 @@ class SequentialServlet(Servlet):
         assert not self._started
         nn = len(self._servlets)
         q1 = q_in
-        for i, s in enumerate(self._servlets):
-            if i + 1 < nn:  # not the last one
-                if (
-                    s.output_queue_type == 'thread'
-                    and self._servlets[i + 1].input_queue_type == 'thread'
-                ):
-                    q2 = _SimpleThreadQueue()
+        started = []
+        try:
+            for i, s in enumerate(self._servlets):
+                if i + 1 < nn:  # not the last one
+                    if (
+                        s.output_queue_type == 'thread'
+                        and self._servlets[i + 1].input_queue_type == 'thread'
+                    ):
+                        q2 = _SimpleThreadQueue()
+                    else:
+                        q2 = _SimpleProcessQueue()
+                    self._qs.append(q2)
                 else:
-                    q2 = _SimpleProcessQueue()
-                self._qs.append(q2)
-            else:
-                q2 = q_out
-            s.start(q1, q2)
-            q1 = q2
+                    q2 = q_out
+                s.start(q1, q2)
+                started.append(s)
+                q1 = q2
+        except BaseException:
+            # A member failed to start; stop the members that have started.
+            for s in started:
+                s.stop()
+            self._qs = []
+            raise
         self._q_in = q_in
         self._q_out = q_out
         self._started = True
@@ -518,20 +541,29 @@ class EnsembleServlet(Servlet):
         self._reset()
         self._qin = q_in
         self._qout = q_out
-        for s in self._servlets:
-            q1 = (
-                _SimpleThreadQueue()
-                if s.input_queue_type == 'thread'
-                else _SimpleProcessQueue()
-            )
-            q2 = (
-                _SimpleThreadQueue()
-                if s.output_queue_type == 'thread'
-                else _SimpleProcessQueue()
-            )
-            s.start(q1, q2)
-            self._qins.append(q1)
-            self._qouts.append(q2)
+        started = []
+        try:
+            for s in self._servlets:
+                q1 = (
+                    _SimpleThreadQueue()
+                    if s.input_queue_type == 'thread'
+                    else _SimpleProcessQueue()
+                )
+                q2 = (
+                    _SimpleThreadQueue()
+                    if s.output_queue_type == 'thread'
+                    else _SimpleProcessQueue()
+                )
+                s.start(q1, q2)
+                started.append(s)
+                self._qins.append(q1)
+                self._qouts.append(q2)
+        except BaseException:
+            # A member failed to start; stop the members that have started.
+            for s in started:
+                s.stop()
+            self._reset()
+            raise
         t = Thread(target=self._dequeue, name=f'{self.__class__.__name__}._dequeue')
         t.start()
         self._threads.append(t)
@@ -697,14 +729,23 @@ class SwitchServlet(Servlet):
         # `self.switch` to determine which member servlet should
         # process this input; then the input is placed in
         # the appropriate queue.
-        for s in self._servlets:
-            q1 = (
-                _SimpleThreadQueue()
-                if s.input_queue_type == 'thread'
-                else _SimpleProcessQueue()
-            )
-            s.start(q1, q_out)
-            self._qins.append(q1)
+        started = []
+        try:
+            for s in self._servlets:
+                q1 = (
+                    _SimpleThreadQueue()
+                    if s.input_queue_type == 'thread'
+                    else _SimpleProcessQueue()
+                )
+                s.start(q1, q_out)
+                started.append(s)
+                self._qins.append(q1)
+        except BaseException:
+            # A member failed to start; stop the members that have started.
+            for s in started:
+                s.stop()
+            self._reset()
+            raise
 
         self._thread_enqueue = Thread(
             target=self._enqueue, name=f'{self.__class__.__name__}._enqueue'
